@@ -136,7 +136,10 @@ def params_walk(walk):
     for i in range(36):
         rows.append(['a', -15.0 * i, 1000 + (i * 37) % 230, 1])
         rows.append(['a', -15.0 * i, 1260 + (i * 53) % 230, 2])
-    frame = tracer.build_frame({'rows': rows})
+    # the caller's frame comes in the layouts a caller may use: exact dtypes with columns of their own, permuted columns, coercible dtypes
+    lays = [None, {'extra': True}, {'extra': True, 'colperm': [5, 2, 4, 0]}, {'colperm': [3, 1, 0, 2]},
+            {'dtypes': {'type': 'int32', 'ceilo': 'object'}, 'extra': True}, {'extra': True}]
+    frame = tracer.build_frame({'rows': rows, 'layout': lays[zlib.crc32(str(walk['name']).encode()) % len(lays)]})
     snap_extras = {1: {}, 2: {}}
     caller_extras = {1: {}, 2: {}}
     fdig = frame_digest(frame)
